@@ -10,7 +10,7 @@ package main
 //   datauri   : generated data URIs (media types with parameters/case/whitespace, both encodings, partial and
 //               invalid escapes, corrupt base64, malformed forms, token soup) + /repo/tests/data-uri/corpus.
 //   mediatype : generated media type strings with quoted parameters + /repo/tests/mediatype/corpus.
-//   known     : replay of the open known findings.
+//   known     : replay of the open known findings (the fixed ones K-C18-4/5/6 are regression inputs of the stages above).
 // Every DataURI case runs the real minify.DataURI with four registries (none / identity stub / shrinking stub /
 // failing stub); the stub's answer is handed to the model as data.  Checked per case: (a) model = implementation
 // (kind "diff"); (b) the property itself on the implementation's output, by the Lean specification
@@ -419,14 +419,14 @@ type c18Spec struct {
 	mt      string
 	norm    string
 	data    []byte
-	trig    string // 4 chars 0/1: plus, paramNoType, b64Item, textPlainPrefix
+	trig    string // 3 chars 0/1: plus, paramNoType, b64Item
 	valid   bool
 }
 
-var c18TrigIDs = []string{"K-C18-1", "K-C18-2", "K-C18-3", "K-C18-4"}
+var c18TrigIDs = []string{"K-C18-1", "K-C18-2", "K-C18-3"}
 
 // clauses of the property a known finding is allowed to break
-var c18TrigClauses = map[string]string{"K-C18-1": "payload,length", "K-C18-2": "mediatype", "K-C18-3": "mediatype,payload,unreadable,length", "K-C18-4": "mediatype"}
+var c18TrigClauses = map[string]string{"K-C18-1": "payload,length", "K-C18-2": "mediatype", "K-C18-3": "mediatype,payload,unreadable,length"}
 
 func c18EvalURIs(c *Ctx, st *h.Stage, uris [][]byte) error {
 	// 1. run the implementation
@@ -606,10 +606,10 @@ func c18EvalMediatypes(c *Ctx, st *h.Stage, inputs [][]byte) error {
 		}
 		sb, ok, msg := h.DecodeReply(rep[2*i+1])
 		f := h.DecodeListReply(sb)
-		if !ok || len(f) != 5 {
+		if !ok || len(f) != 3 {
 			return fmt.Errorf("spec.c18.mediatype: bad reply %s", msg)
 		}
-		exact, allowed, closed, tShift, tBack := f[0], string(f[1]) == "1", string(f[2]) == "1", string(f[3]) == "1", string(f[4]) == "1"
+		exact, allowed, closed := f[0], string(f[1]) == "1", string(f[2]) == "1"
 		if bytes.Contains(b, []byte("\"")) {
 			st.Tag("quoted=yes")
 		} else {
@@ -632,11 +632,6 @@ func c18EvalMediatypes(c *Ctx, st *h.Stage, inputs [][]byte) error {
 			bad = "letters outside quoted strings left in upper case although the input is shorter than 1024 bytes"
 		}
 		if bad == "" {
-			continue
-		}
-		if tShift || tBack {
-			c.R.ExcludedKnown++
-			st.Tag("known=" + map[bool]string{true: "K-C18-5", false: "K-C18-6"}[tShift])
 			continue
 		}
 		c.R.Add(h.Finding{Stage: st.Name, Kind: "fail", What: "Mediatype: " + bad, Input: h.Q(b), Hex: h.Hex(b), Impl: h.Q(outs[i]), Model: "reference: " + h.Q(exact)})
@@ -665,7 +660,9 @@ var c18Fixed = []string{"datx:x", "data:,text", "data:text/plain;charset=us-asci
 	"data:;base64,dGV4dA==", "data:text/svg+xml;base64,IyMjIyMj", "data:text/xml;version=2.0,content", "data:text/xml; version = 2.0,content", "data:,%23%23%23%23%23",
 	"data:,%23%23%23%23%23%23", "data:text/x,<?xx?>", "data:text/other,\"<\u2318", "data:text/other,\"<\u2318>", "data:image/svg&#43;xml,%e2%ad%90",
 	"data:,a%2Bb", "data:,a%2bb", "data:;charset=us-ascii,x", "data:text/plain;a=b,x", "data:text/plain,", "data:text/plain;base64,", "data:;base64,IyMjIyMj", "data:x/y;charset=us-ascii;base64,IyMjIyMj",
-	"data:text/plain;charset=us-ascii;base64,IyMjIyMj", "data:x/y;charset=us-ascii;charset=us-ascii,x", "data:a=b,x", "data:text/html;BASE64,QQ=="}
+	"data:text/plain;charset=us-ascii;base64,IyMjIyMj", "data:x/y;charset=us-ascii;charset=us-ascii,x", "data:a=b,x", "data:text/html;BASE64,QQ==",
+	// fixed finding K-C18-4 and neighbours: these must pass
+	"data:text/plainx,abc", "data:text/plain x,abc", "data:TEXT/PLAIN+x;charset=us-ascii,abc", "data:text/plain=1,abc", "data:text/plainx;base64,IyMjIyMj", "data:text/plain;x=1,abc"}
 
 func c18Contracts(c *Ctx) error {
 	st := c.R.StartStage("contracts", "dependency contracts: base64.StdEncoding.Encode/Decode, parse.EncodeURL, parse.DecodeURL, parse.DataURI vs their Lean models; Lean spec decoders (pctDecode, b64Decode) vs hand-written Go readers; random byte strings over escape-heavy alphabets incl. CR/LF, padding and bad escapes; non-trivial = the function changes its input")
@@ -786,7 +783,9 @@ func init() {
 		// ---- Mediatype ----
 		st = c.R.StartStage("mediatype", "generated media type strings (case, whitespace of 5 kinds around every token, 0-4 parameters, quoted values incl. empty/adjacent/with ; and whitespace, quoted-pair, unterminated quote, runs >= 1024 bytes, raw soup) + the suite's cases + tests/mediatype/corpus; non-trivial = output differs from input")
 		var mts [][]byte
-		for _, s := range []string{"text/html", "text/html; charset=UTF-8", "text/html; charset=UTF-8 ; param = \" ; \"", "text/html, text/css", `video/mp4; codecs="av01.0.05M.08"`, "", " ", "\"", "A", " A", "A ", "a=\"B\" ;c=\"D\""} {
+		for _, s := range []string{"text/html", "text/html; charset=UTF-8", "text/html; charset=UTF-8 ; param = \" ; \"", "text/html, text/css", `video/mp4; codecs="av01.0.05M.08"`, "", " ", "\"", "A", " A", "A ", "a=\"B\" ;c=\"D\"",
+			// fixed findings K-C18-5, K-C18-6 and neighbours: these must pass
+			"a  ;x=\"AB\";y=\"C\"", "A \t;X=\"AB\"\"CD\"\"EF\";Y=\"G H\"", "x=\"a\\\"B C\"", "X = \"a\\\\\" ; Y=\"B\\\"C\"", " a\\ B=\"C\""} {
 			mts = append(mts, []byte(s))
 		}
 		mts = append(mts, c18Corpus(filepath.Join(c.Repo, "tests", "mediatype", "corpus"))...)
